@@ -990,8 +990,8 @@ class Interp:
         if isinstance(e.op, ast.Not):
             return V("bool")
         if v.is_numlike:
-            if v.k == "log" and isinstance(e.op, ast.USub):
-                return v.copy(u=lf_scale(v.u, -1), cval=None)
+            if isinstance(e.op, ast.USub) and not v.wild and (v.k == "log" or v.dconst not in (None, 0.0) or v.mconst is not None):
+                return self._binop(ast.Mult(), v, wild((), -1.0), e)  # -x is (-1) * x, constants included
             return v.copy(cval=-v.cval if (v.cval is not None and isinstance(e.op, ast.USub)) else None)
         return v
 
@@ -1114,6 +1114,8 @@ class Interp:
             return r
         if isinstance(op, (ast.Div, ast.FloorDiv)):
             self.c.facts.setdefault("divs", []).append((self.f.key, node, a, b))
+            if isinstance(op, ast.Div) and b.wild and isinstance(b.cval, (int, float)) and b.cval not in (0, 0.0) and not a.wild and b.sh in (None, ()):
+                return self._binop(ast.Mult(), a, wild((), 1.0 / b.cval), node)  # x / c is (1/c) * x, constants included
             if a.k == "log":
                 if b.k == "log":
                     return unk("ratio of log values")
